@@ -49,7 +49,7 @@ type World struct {
 	serveCtx    context.Context
 	serveCancel context.CancelFunc
 	wg          sync.WaitGroup
-	mu     sync.Mutex
+	mu          sync.Mutex
 	// ServeErrs collects the return values of Server.Serve, by connection name.
 	ServeErrs map[string]error
 	ServeDone map[string]bool
